@@ -152,6 +152,6 @@ def run(r):
         "with two accumulators: ALL outputs compared in order; "
         "(4) arguments that carry run-time sortedness marks (sort, reversed sort, select by rise; ties; byte and float storage; rank 1-3; rows ordered while later columns are not monotone) "
         "under every modifier with a primitive-specialised path; "
-        "(5) fixed corpora replayed first: the inputs of all earlier findings and of the repaired defects (rounds 1-6) and the directed packs; 40 cases with a MAP as argument of "
+        "(5) fixed corpora replayed first: the inputs of all earlier findings and of the repaired defects (rounds 1-7) and the directed packs; 40 cases with a MAP as argument of "
         "rows / each / inventory / reduce / scan / table (result valid and, keys aside, equal to the result on the plain values). "
         "Families (3), (4) and the pack part of (2) take one iteration in six each. non-trivial = array with at least one element")
